@@ -39,6 +39,11 @@ func c06Gen(seed uint64, run int, tier string) *Case {
 	c.Cfg["nframes"] = int64(r.Range(5, 30))
 	c.Cfg["wait"] = int64(r.Pick(0, 1, 1))
 	c.Stratum = []string{"script", "ufs"}[run%2] + "/" + []string{"grammar", "mutation", "raw-bytes"}[run/2%3]
+	if run%2 == 1 && run/6%2 == 1 {
+		// the file system misbehaves too: os / syscall calls of Ufs fail at random
+		c.Cfg["osrate"] = int64(r.Pick(20, 60, 200))
+		c.Stratum += "+os-errors"
+	}
 	return c
 }
 
@@ -182,6 +187,9 @@ func c06Exec(x *Ctx) {
 	}
 	hostile := newConn()
 	by := newConn()
+	if rate := int(c.cfg("osrate")); rate > 0 {
+		x.S.OSRate, x.S.OSMax = rate, 12
+	}
 	msize := uint32(c.cfg("msize"))
 	dotu := c.cfg("dotu") != 0
 	hostileDone, byOK, byCalls := false, true, 0
@@ -190,7 +198,13 @@ func c06Exec(x *Ctx) {
 	rt.Go(rt.SiteSpawn, func() {
 		rt.SetName("bystander")
 		p := by.Peer
-		if !rawAttach(p, 8192, true, "") {
+		attached := rawAttach(p, 8192, true, "")
+		for try := 0; !attached && x.S.OSRate > 0 && try < 8 && !p.EOF; try++ {
+			// with injected file system errors the attach itself may fail: try again, as a client would
+			r := p.Call(&Msg{Type: Tattach, Tag: uint16(50 + try), Fid: 0, Afid: NOFID, Uname: "root", Aname: "", Nuname: 0})
+			attached = r != nil && r.M != nil && r.M.Type == Rattach
+		}
+		if !attached {
 			x.Violate("z2-bystander", "the bystander connection could not attach while another connection misbehaves")
 			byOK = false
 			return
@@ -198,7 +212,7 @@ func c06Exec(x *Ctx) {
 		for i := 0; !stop && i < 200; i++ {
 			rr := p.Call(&Msg{Type: Tstat, Tag: uint16(100 + i), Fid: 0})
 			byCalls++
-			if rr == nil || rr.M == nil || (rr.M.Type != Rstat && !(rr.M.Type == Rerror && !useUfs)) {
+			if rr == nil || rr.M == nil || (rr.M.Type != Rstat && !(rr.M.Type == Rerror && (!useUfs || x.S.OSRate > 0))) {
 				x.Violate("z2-bystander", "the bystander's Tstat %d was answered %v (connection dropped: %v) while another connection misbehaves", i, rr, p.EOF)
 				byOK = false
 				return
@@ -321,6 +335,10 @@ func c06Exec(x *Ctx) {
 		x.Probe("hostile-connection-dropped-by-server")
 	}
 	// a fresh connection is served afterwards
+	if x.S.OSRate > 0 {
+		x.FaultN("os-error", len(x.S.OSLog))
+		x.S.OSRate = 0 // faults stop: the fresh connection must be served normally
+	}
 	fresh := newConn()
 	ok := false
 	rt.Go(rt.SiteSpawn, func() {
@@ -329,6 +347,9 @@ func c06Exec(x *Ctx) {
 		if ok {
 			rr := fresh.Peer.Call(&Msg{Type: Tstat, Tag: 7, Fid: 0})
 			ok = rr != nil && rr.M != nil && (rr.M.Type == Rstat || (!useUfs && rr.M.Type == Rerror))
+			if !ok && x.S.OSRate > 0 && rr != nil && rr.M != nil && rr.M.Type == Rerror {
+				ok = true // served; the error is the injected one
+			}
 		}
 	})
 	if !x.Run() {
